@@ -933,11 +933,13 @@ pub fn check_main(cc: &CheckCfg) -> i32 {
         digest_all
     );
     if harness_error {
-        eprintln!("HARNESS-ERROR: completed={} nondeterministic runs={:?}", completed, nondet);
-        return 2;
+        eprintln!("HARNESS-ERROR: completed={} runs whose failure did not reproduce in a fresh process or whose in-worker re-execution differed: {:?}", completed, nondet);
     }
+    // reproducible, minimised violations take precedence over the harness error
     if violations > 0 {
         1
+    } else if harness_error {
+        2
     } else {
         0
     }
